@@ -13,7 +13,7 @@ from facts import REPO, Program, extract, show, call_obj, call_args, walk
 from e2_deps import Deps, var_key
 from report import Check
 
-UNITS = ["src/Basic/Grid.cpp", "src/Basic/Rotation.cpp"]
+UNITS = ["src/Basic/Grid.cpp", "src/Basic/Rotation.cpp", "src/Db/DbGrid.cpp"]
 # roles confirmed by reading the documentation of each routine
 FORWARD = ["Grid::getCoordinate", "Grid::getCoordinatesByIndice", "Grid::getCoordinatesByRank", "Grid::indiceToCoordinate",
            "Grid::indicesToCoordinateInPlace"]
@@ -125,6 +125,111 @@ def main(tier):
                            key="C16|%s/%d|floor#%d" % (f.name, len(f.params), ncast))
     if ncast < 2:
         raise facts.AnalysisBroken("C16: integer conversions of the inverse routines not found (%d)" % ncast)
+    # results of the conversion functions are used: a value-returning const conversion called as a statement computes nothing
+    # (Grid::dilate called indicesToCoordinate(indice, percent) for its side effect on a scratch vector)
+    ndisc = 0
+    conv = {f.name for f in prog.funcs if f.cls in ("Grid", "Rotation") and f.body is not None and not f.ret.startswith(("void", "bool", "int"))}
+    for f in sorted(prog.funcs, key=lambda x: (x.file, x.line)):
+        if f.body is None or f.cls not in ("Grid", "Rotation"):
+            continue
+        for c in f.calls():
+            if c["k"] != "MCall" or c.get("callee") not in conv:
+                continue
+            # overloads: judged only when every overload with this number of arguments returns a value
+            cands = [g for g in prog.fns(c["callee"]) if len(g.params) >= len(call_args(c))]
+            if not cands or any(g.ret.startswith(("void", "bool", "int")) for g in cands):
+                continue
+            ndisc += 1
+            par = f.parent(c)
+            dropped = par is not None and (par["k"] in ("Block", "For", "While", "ForRange", "Do") or (par["k"] == "If" and par["c"][0] is not c))
+            if dropped:
+                chk.analysed(f)
+            n += 1
+            chk.ob("C16", "%s: the result of %s is used" % (f.name, c["callee"].split("::")[-1]), f.loc(c), not dropped,
+                   detail=None if not dropped else "the conversion returns its result by value and the call drops it: what the caller reads afterwards is a "
+                   "scratch member, not the converted coordinates", key="C16|%s|result-of-%s" % (f.name, c["callee"].split("::")[-1]),
+                   nontrivial=dropped)
+    if ndisc < 3:
+        raise facts.AnalysisBroken("C16: calls of value-returning conversions not found (%d)" % ndisc)
+    # derived grids: a function that builds a grid from the origin, mesh AND rotation of a parent must not shift the origin along
+    # the axes (`x0[i] += k * dx[i]`): on a rotated parent the node k is at x0 + R (k dx); the origin of the child comes from the
+    # parent's own indices -> coordinates conversion
+    nder = 0
+    for f in sorted(prog.funcs, key=lambda x: (x.file, x.line)):
+        if f.body is None:
+            continue
+        src = {}        # local decl -> ("X0"|"DX"|"ANG", receiver)
+        for x in f.walk():
+            if x["k"] == "VarDecl" and x.get("c") and x["c"][0] is not None:
+                for y in walk(x["c"][0]):
+                    if y["k"] == "MCall" and (y.get("callee") or "").split("::")[-1] in ("getX0s", "getDXs", "getAngles", "getRotMat"):
+                        o = call_obj(y)
+                        kind = {"getX0s": "X0", "getDXs": "DX", "getAngles": "ANG", "getRotMat": "ANG"}[y["callee"].split("::")[-1]]
+                        src[x["d"]] = (kind, "this" if (o is None or o["k"] == "This") else show(o))
+        x0s = {d: r for d, (k, r) in src.items() if k == "X0"}
+        if not x0s:
+            continue
+        for d, recv in sorted(x0s.items()):
+            forwards_rot = any(k == "ANG" and r == recv for (k, r) in src.values())
+            if not forwards_rot:
+                continue
+            nder += 1
+            n += 1
+            bad = None
+            for x in f.walk():
+                if x["k"] in ("Assign", "OpCall") and x.get("op") in ("+=", "-=", "=") and len(x.get("c") or []) == 2:
+                    l = x["c"][0]
+                    base = l
+                    elem = False
+                    while base is not None and (base["k"] in ("Index", "Cast") or (base["k"] == "OpCall" and base.get("op") == "[]")):
+                        elem = elem or base["k"] != "Cast"
+                        base = base["c"][0]
+                    if not elem or base is None or base["k"] != "DeclRefExpr" or base.get("d") != d:
+                        continue
+                    uses_dx = any((y["k"] == "DeclRefExpr" and src.get(y.get("d"), ("", ""))[0] == "DX") or
+                                  (y["k"] == "MCall" and (y.get("callee") or "").split("::")[-1] in ("getDX", "getDXs")) for y in walk(x["c"][1]))
+                    if uses_dx:
+                        bad = x
+                        break
+            chk.analysed(f)
+            chk.ob("C16", "%s: the origin of the grid derived from %s is not shifted along the axes of a possibly rotated parent" % (f.name, recv),
+                   f.loc(bad) if bad else f.loc(), bad is None,
+                   detail=None if bad is None else "`%s` moves the origin by a multiple of the mesh along the coordinate axes while the rotation of the parent is "
+                   "forwarded to the child: on a rotated parent the nodes of the child are not those of the parent" % show(bad)[:60],
+                   key="C16|%s|derived-origin" % f.name)
+    if nder < 2:
+        raise facts.AnalysisBroken("C16: grid derivations not found (%d)" % nder)
+    # derivation routines of Grid (multiple / divider / dilate): what comes out of the indices -> coordinates conversion is a
+    # point of the rotated system; scaling its components by per-direction factors mixes the rotated axes
+    nscal = 0
+    for name in ("Grid::multiple", "Grid::divider", "Grid::dilate"):
+        fs = [f for f in prog.fns(name) if f.cfg is not None]
+        if not fs:
+            raise facts.AnalysisBroken("derivation routine %s not found" % name)
+        for f in fs:
+            def conv_out(call):
+                cal = call.get("callee") or ""
+                if cal.endswith("::indicesToCoordinateInPlace"):
+                    return [1]
+                return None
+            dp = Deps(f, conv_out).solve()
+            bad = None
+            for x in f.walk():
+                if x["k"] == "BinOp" and x.get("op") in ("*", "/"):
+                    st = dp.state_before(x)
+                    l, r = dp.deps(x["c"][0], st), dp.deps(x["c"][1], st)
+                    rot = lambda s_: any(a.startswith("C:indicesToCoordinate") for a in s_)
+                    par = lambda s_: any(a.startswith("P:") for a in s_) and not rot(s_)
+                    if (rot(l) and par(r)) or (rot(r) and par(l)):
+                        bad = x
+                        break
+            nscal += 1
+            n += 1
+            chk.analysed(f)
+            chk.ob("C16", "%s: no coordinate produced by the conversion is scaled by a per-direction factor" % f.sig(), f.loc(bad) if bad else f.loc(), bad is None,
+                   detail=None if bad is None else "`%s` multiplies / divides a rotated coordinate component by a factor of its own direction: on a rotated grid "
+                   "with different factors the origin of the derived grid is misplaced" % show(bad)[:50],
+                   key="C16|%s|scaled-after-rotation" % f.name)
     # Rotation class
     rd = [f for f in prog.fns("Rotation::rotateDirect")]
     ri = [f for f in prog.fns("Rotation::rotateInverse")]
